@@ -103,4 +103,13 @@ def suite_iso(ctx):
     return isoconst.suite_iso(ctx, with_frames=True)
 
 
-SUITES = [suite_enc, suite_iso]
+def suite_mem_frames(ctx):
+    """memory-addressed requests, incl. MemoryLocation objects that are used again (re-pointed, after a refusal, under another configuration): the frame decodes
+    (Annex H) to the address and size the object holds at the time of the call (the C14 memloc suite, run here for its frame half)"""
+    from . import c14
+    s = c14.suite_memloc(ctx)
+    s.name = 'mem_frames'
+    return s
+
+
+SUITES = [suite_enc, suite_iso, suite_mem_frames]
